@@ -14,9 +14,11 @@ EXPLANATION = (
     "unconditionally and for SUBSCRIBE/UNSUBSCRIBE/PUBREL only under the version==3.1 test; stored bytes are produced by "
     "encode() before registration and afterwards only byte 0 bit 3 is touched, no re-encoding and no reassignment of "
     "identifier/topic/payload; stored bytes are written only in first-send, own-timer and resume contexts; the timer delay "
-    "depends on the request's interval object, created with the configured initial timeout. The two timing clauses (gaps >= "
-    "initial timeout, non-shrinking PUBLISH gaps) are numeric consequences of Interval/IntervalLinear with random jitter and "
-    "a caller-supplied factor: NOT decided.")
+    "depends on the request's interval object, created with the configured initial timeout; R-GAP - a lower-bound (sign) "
+    "analysis of the interval classes shows the produced delay >= the initial timeout (initial >= 1 by setTimeout's guard, "
+    "factor default >= 1, maxDelay = max(initial, .), jitter >= 0, bandwidth/factor > 0 by setBandwith's guard). NOT decided: "
+    "that PUBLISH gaps do not shrink from one retry to the next (random jitter and a caller-supplied factor below 1 are "
+    "numeric, not structural).")
 ASSUMPTIONS = ["timing clauses of the property are not decided by this family"]
 
 RETRY_KINDS = {"PUBLISH": True, "PUBREL": False, "SUBSCRIBE": False, "UNSUBSCRIBE": False}   # class -> DUP unconditional?
@@ -229,6 +231,30 @@ def check(ctx):
                     ctx.ob("R-DELAY", "%s interval created with the configured initial timeout (%s)" % (cq, short(e.func)),
                            init == ("attr", SELF, "_initialT"), where=where(e), function=e.func, construct="%s/interval-initial" % e.func,
                            nontrivial=False, msg="interval object created with initial=%s" % show(init))
+    # ---- R-GAP: the delay produced by the interval objects is never below the initial timeout -----------
+    from .gaps import IntervalBounds, passed_bounds
+    imod = a.prog.modules.get("mqtt.client.interval")
+    if imod is None:
+        raise AnalysisError("anchor vanished: mqtt.client.interval")
+    n_iv = 0
+    for cname, c in sorted(imod.classes.items()):
+        if "__call__" not in c.methods:
+            continue
+        passed, nsites = passed_bounds(a, c.qual)
+        if not nsites:
+            continue
+        n_iv += 1
+        ib = IntervalBounds(a.prog, c, passed)
+        lb, node = ib.result()
+        ctx.ob("R-GAP", "%s() never yields a delay below the initial timeout" % cname, lb == "I",
+               where="%s:%d" % (c.module.path, node.lineno if node is not None else c.node.lineno), function=c.qual + ".__call__",
+               construct="%s/lower-bound" % c.qual,
+               msg="the delay returned by %s.__call__ cannot be shown to be >= the configured initial timeout (sign analysis gives '%s'; "
+                   "attributes %s): a retransmission can follow the previous transmission sooner than the initial timeout" % (cname, lb, ib.attr))
+        ctx.ob("R-GAP", "%s is constructed with the configured initial timeout only through keyword `initial`" % cname,
+               "<positional>" not in passed and passed.get("initial") == "I", where=c.module.path, construct="%s/constructed" % c.qual, nontrivial=False,
+               msg="constructor arguments passed by the client: %s" % passed)
+    ctx.floor("interval classes used by the client", n_iv, 2)
     ctx.count("retry_timer_targets", n_timer)
     ctx.count("stored_packet_writes", n_writes)
     ctx.floor("retry timer targets (3 classes)", n_timer, 8)
